@@ -23,7 +23,7 @@ RULE = ('grid of decimal texts (sign x integer part in {0,1,2,7,12,123,99999} x 
 ASSUMPTIONS = ['decimal.Decimal quantize is the reading of "decimal-exact" rounding',
                'a float override carries the double nearest to the decimal text (<= 9 significant digits here)',
                'CPython float()/repr round-trip']
-HOST_SETTINGS = {'shards': lambda shards: [1, len(shards) - 6, len(shards) - 4, len(shards) - 1], 'env': {'VERIF_HOST_DECIMAL': '4,ROUND_UP,traps'}}
+HOST_SETTINGS = {'shards': lambda shards: [1] + [i for i, s_ in enumerate(shards) if s_.get('kind') == 'placed'] + [i for i, s_ in enumerate(shards) if s_.get('kind') == 'scales'][-2:] + [i for i, s_ in enumerate(shards) if 'mixed' in s_][-1:], 'env': {'VERIF_HOST_DECIMAL': '4,ROUND_UP,traps'}}
 FLOORS = {'quick': {'evaluations': 100000, 'nontrivial': 20000}, 'thorough': {'evaluations': 3000000, 'nontrivial': 500000}}
 
 IPS = [0, 1, 2, 7, 12, 123, 99999]
@@ -63,6 +63,8 @@ def _plan(tier, seed):
     for part in range(4):
         shards.append({'kind': 'scales', 'part': part, 'parts': 4})
     shards.append({'kind': 'scales', 'ints': True})
+    for k in range(2 if tier == 'quick' else 6):
+        shards.append({'kind': 'threads', 'k': k})
     return shards
 
 
@@ -278,6 +280,45 @@ def run_scales(shard, ctx):
     r.sample({'scales': [c for c in cases[:6]]})
 
 
+def run_threads(shard, ctx):
+    """the three rounding functions evaluated by several threads at the same time, each thread through an Executor of its own on ONE
+    loaded class (a request handler per thread): a mode, a memo or a context shared between them shows as a value that differs from
+    the single-threaded one.  Decided against decimal quantize for the single-threaded baseline, against the baseline for the rest."""
+    from .. import threads as vthreads
+    r, rng = ctx.r, ctx.rng
+    amounts = ['2.5', '-2.5', '1.21', '0.125', '7.005', '123.455', '-0.5', '99999.995', '1.5', '0.0045', '12.345', '-7.5']
+    cells, where = {}, []
+    for i, t in enumerate(amounts):
+        cells[f'A{i + 1}'] = float(t)
+        for j, fn in enumerate(('ROUND', 'ROUNDUP', 'ROUNDDOWN')):
+            n = (i + j) % 3
+            a = wbspec.a1(i + 1, 3 + j)
+            cells[a] = f'={fn}(A{i + 1},{n})'
+            where.append(((0, i + 1, 3 + j), fn, t, n))
+    book = pipeline.Book(wbspec.spec(wbspec.sheet('S1', cells)), ctx.workdir, name='thr')
+    if book.cls is None:
+        r.violation('translate', {'spec': 'threads'}, book.whole.brief(), 'a loadable class')
+        return
+    res = vthreads.concurrent_queries(book.cls, [w[0] for w in where], threads=4, rounds=400 if ctx.tier == 'quick' else 4000, seed=ctx.seed)
+    for (cell, fn, t, n) in where:
+        exp, _ = expected_round(fn, t, n)
+        b = res['baseline'][cell]
+        r.ev()
+        if not (b[0] == 'V' and float(eval(b[2])) == exp):
+            report(r, ID, None, {'fn': fn, 'text': t, 'digits': n, 'how': 'single-threaded baseline of the thread shard'}, b, exp, monitor='decimal-quantize')
+    r.ev(res['queries'])
+    r.counters['concurrent_rounding_queries'] = r.counters.get('concurrent_rounding_queries', 0) + res['queries']
+    r.counters['overlapping_query_pairs'] = r.counters.get('overlapping_query_pairs', 0) + res['overlapping_pairs']
+    r.nt(('threads', ctx.seed))
+    for (i, cell, got, want) in res['mismatches'][:5]:
+        w = [x for x in where if x[0] == cell][0]
+        report(r, ID, None, {'fn': w[1], 'text': w[2], 'digits': w[3], 'how': f'thread {i} of 4, one Executor per thread on one class object'}, got, want,
+               monitor='concurrent-evaluation')
+    if res['unfinished']:
+        r.inconcl('thread shard did not finish within its watchdog')
+    r.sample({'threads': 4, 'queries': res['queries'], 'overlapping_query_pairs': res['overlapping_pairs']})
+
+
 def run_shard(shard, ctx):
     if isinstance(shard, dict) and 'mixed' in shard:
         from ..mixed import run_mixed
@@ -296,7 +337,9 @@ def run_shard(shard, ctx):
             run_grid({'sign': sign, 'ip': int(ip), 'f': int(f), 'digits': c['digits'], 'fn': c['fn']}, ctx)
             run_placed_one(c, ctx)
         return
-    if shard['kind'] == 'grid':
+    if shard['kind'] == 'threads':
+        run_threads(shard, ctx)
+    elif shard['kind'] == 'grid':
         run_grid(shard, ctx)
     elif shard['kind'] == 'scales':
         run_scales(shard, ctx)
